@@ -43,6 +43,14 @@ def handleStruct (st : St) (op : String) (j : Json) : Option (D (St × Json)) :=
         | .ok s => eRes eNode (S.apply s d)
         | .error e => eErr e)
     | _ => return (st, eRes eStep r)
+  -- the guards of the "approved edit applies" theorems of Props/C12.lean (`canSplit_split_applies`, …)
+  | "structGuard" => some do
+    let S ← getSchema st j
+    let d ← node (← field j "doc")
+    let k ← str (← field j "k")
+    match k with
+    | "split" => return (st, ok (Json.bool (splitGuard S d (← nat (← field j "pos")))))
+    | _ => throw s!"bad structGuard kind {k}"
   -- the remaining helpers (PM/Structure2.lean); `{"err":"raises"}` = the model says the code raises
   | "canJoin" => some do
     let S ← getSchema st j
